@@ -10,6 +10,7 @@ import (
 	"net/http"
 	"os"
 	"path/filepath"
+	"regexp"
 	"strconv"
 	"strings"
 	"sync"
@@ -78,13 +79,11 @@ func hookDial(ctx context.Context, network, addr string) (net.Conn, error) {
 	now := time.Now()
 	r.mu.Lock()
 	var a *attempt
-	if pi.kind == 'a' || r.c.Loop == "plain" {
+	if (pi.kind == 'a' || r.c.Loop == "plain") && len(r.attempts) >= 600 {
+		a = r.attempts[len(r.attempts)-1] // a storm: enough has been recorded
+	} else if pi.kind == 'a' || r.c.Loop == "plain" {
 		a = &attempt{idx: len(r.attempts), start: now, wsStart: time.Time{}}
 		r.attempts = append(r.attempts, a)
-		if r.busyStop != nil { // a new attempt: the connection with the busy sender is over
-			close(r.busyStop)
-			r.busyStop = nil
-		}
 		select {
 		case r.resume <- struct{}{}: // the user of the client consumes r.In again
 		default:
@@ -163,6 +162,7 @@ type attempt struct {
 	k            int
 	inSeq        []int
 	ackSeq       []int
+	malformed    string // why the strict front end refused this attempt's request ("" = it did not)
 }
 
 type run struct {
@@ -180,6 +180,8 @@ type run struct {
 	pauseReq   chan struct{} // the consumer of r.In stops consuming (synchronous hand-over)
 	resume     chan struct{}
 	busyStop   chan struct{} // non-nil while the busy sender runs
+	busyLater  []int         // numbers of the busy sender's messages received on later connections, in order
+	busyIdx    int           // the attempt during which the busy sender started
 	stayArmed  bool
 	stayUp     chan struct{} // closed when the long-lived connection is first established
 	tag        string        // marks the numbered messages of this run (a re-used client may still hold one of the last round)
@@ -258,9 +260,49 @@ func hijackClose(w http.ResponseWriter, payload string) {
 	_ = c.Close()
 }
 
+// wellFormed is what a strict front end (nginx, a cloud load balancer) insists on before it passes a request
+// on: one line each of the headers that must not repeat, a sane Content-Length. "" = fine.
+func wellFormed(req *http.Request, ws bool) string {
+	single := []string{"Authorization", "Content-Length", "Content-Type", "User-Agent", "Host", "Origin", "Cookie"}
+	if ws {
+		single = append(single, "Upgrade", "Sec-Websocket-Key", "Sec-Websocket-Version", "Sec-Websocket-Protocol")
+	}
+	for _, h := range single {
+		if n := len(req.Header.Values(h)); n > 1 {
+			return fmt.Sprintf("%d %s header lines", n, h)
+		}
+	}
+	if req.Host == "" {
+		return "no Host"
+	}
+	if !ws {
+		if len(req.Header.Values("Authorization")) != 1 {
+			return "no Authorization header line"
+		}
+		if req.ContentLength > 0 || len(req.TransferEncoding) > 0 {
+			return fmt.Sprintf("a body (Content-Length %d, Transfer-Encoding %v) on a request that has none", req.ContentLength, req.TransferEncoding)
+		}
+	}
+	return ""
+}
+
+func (r *run) refuseMalformed(w http.ResponseWriter, a *attempt, why string) {
+	r.mu.Lock()
+	a.malformed = why
+	r.mu.Unlock()
+	w.Header().Set("Content-Type", "text/html")
+	w.WriteHeader(400)
+	fmt.Fprint(w, "<html><head><title>400 Bad Request</title></head><body><center>client sent duplicate header line</center></body></html>")
+}
+
 func (r *run) accessHandler(w http.ResponseWriter, req *http.Request) {
 	a := r.current()
 	st := r.step(a.idx)
+	if why := wellFormed(req, false); why != "" {
+		r.refuseMalformed(w, a, why)
+		r.endAttempt(a)
+		return
+	}
 	if r.trigger(a.idx, "access") {
 		r.doCancel(false)
 		time.Sleep(10 * time.Millisecond)
@@ -359,6 +401,10 @@ func (r *run) wsHandler(w http.ResponseWriter, req *http.Request) {
 	a := r.current()
 	st := r.step(a.idx)
 	defer r.endAttempt(a)
+	if why := wellFormed(req, true); why != "" {
+		r.refuseMalformed(w, a, why)
+		return
+	}
 	if r.trigger(a.idx, "ws") {
 		r.doCancel(false)
 		if st.W != "hang" {
@@ -381,7 +427,7 @@ func (r *run) wsHandler(w http.ResponseWriter, req *http.Request) {
 		case <-req.Context().Done():
 		case <-r.finished:
 		}
-	case "accept", "accepthang", "acceptdropw", "acceptstay":
+	case "accept", "accepthang", "acceptdropw", "acceptstay", "acceptbad":
 		c, err := upgrader.Upgrade(w, req, nil)
 		if err != nil {
 			return
@@ -391,7 +437,7 @@ func (r *run) wsHandler(w http.ResponseWriter, req *http.Request) {
 		r.mu.Unlock()
 		if st.W == "acceptdropw" {
 			r.serveDropW(c, a)
-		} else if st.W == "acceptstay" {
+		} else if st.W == "acceptstay" || st.W == "acceptbad" {
 			r.serveStay(c, a)
 		} else {
 			r.serveConn(c, a, st)
@@ -504,6 +550,7 @@ func (r *run) serveDropW(c *websocket.Conn, a *attempt) {
 	stop := make(chan struct{})
 	r.mu.Lock()
 	r.busyStop = stop
+	r.busyIdx = a.idx
 	r.mu.Unlock()
 	go func() { // the busy sender
 		for n := 0; ; n++ {
@@ -514,7 +561,7 @@ func (r *run) serveDropW(c *websocket.Conn, a *attempt) {
 			case <-r.finished:
 				return
 			}
-			time.Sleep(300 * time.Microsecond)
+			// no pause: the next message is already waiting on r.Out while this one is being written
 		}
 	}()
 	for got := 0; got < 5; {
@@ -576,6 +623,13 @@ func (r *run) serveConn(c *websocket.Conn, a *attempt, st Step) {
 			return
 		}
 		parts := strings.Split(string(data), ":")
+		if len(parts) == 3 && parts[0] == "b" { // the busy sender of an earlier connection is still at it
+			n, _ := strconv.Atoi(parts[2])
+			r.mu.Lock()
+			r.busyLater = append(r.busyLater, n)
+			r.mu.Unlock()
+			continue
+		}
 		if len(parts) != 3 || parts[0] != "c" {
 			continue
 		}
@@ -591,6 +645,33 @@ func (r *run) serveConn(c *websocket.Conn, a *attempt, st Step) {
 		got++
 		if cancelHere && got == r.c.Cancel.J && st.W != "accepthang" {
 			r.doCancel(false)
+		}
+	}
+	r.mu.Lock()
+	collect := r.busyStop != nil && a.idx == r.busyIdx+1
+	r.mu.Unlock()
+	if collect {
+		// the connection right after the one whose loss the writer noticed: see a good number of the busy
+		// sender's next messages, and in which order they come
+		until := time.Now().Add(500 * time.Millisecond)
+		for {
+			r.mu.Lock()
+			enough := len(r.busyLater) >= 10
+			r.mu.Unlock()
+			if enough || time.Now().After(until) {
+				break
+			}
+			_ = c.SetReadDeadline(until)
+			_, data, err := c.ReadMessage()
+			if err != nil {
+				break
+			}
+			if parts := strings.Split(string(data), ":"); len(parts) == 3 && parts[0] == "b" {
+				n, _ := strconv.Atoi(parts[2])
+				r.mu.Lock()
+				r.busyLater = append(r.busyLater, n)
+				r.mu.Unlock()
+			}
 		}
 	}
 	if st.W == "accepthang" {
@@ -642,7 +723,11 @@ func (r *run) serveConn(c *websocket.Conn, a *attempt, st Step) {
 		return
 	}
 	if a.idx%2 == 0 {
-		_ = c.WriteControl(websocket.CloseMessage, websocket.FormatCloseMessage(websocket.CloseGoingAway, ""), time.Now().Add(time.Second))
+		reason := ""
+		if a.idx%4 == 0 {
+			reason = "server is restarting for maintenance, please reconnect later"
+		}
+		_ = c.WriteControl(websocket.CloseMessage, websocket.FormatCloseMessage(websocket.CloseGoingAway, reason), time.Now().Add(time.Second))
 	}
 }
 
@@ -752,6 +837,8 @@ func runLoop(c *Case, sh *shared) {
 				case m := <-outCh:
 					select {
 					case mh.Broadcast <- hub.Message{Sender: *local, Data: m.Data, Type: m.Type, Sent: time.Now()}:
+						// the hub DROPS a message for a client whose 2-slot queue is full (made for video): do not burst
+						time.Sleep(25 * time.Millisecond)
 					case <-r.finished:
 						return
 					}
@@ -783,8 +870,15 @@ func runLoop(c *Case, sh *shared) {
 		logf, playf := filepath.Join(dir, "log.txt"), filepath.Join(dir, "play.txt")
 		var pb strings.Builder
 		for i, st := range c.Sched {
-			if st.W == "accept" {
-				for n := 0; n < st.K; n++ {
+			if st.W == "accept" && st.K > 0 {
+				// acknowledge once the LAST of the server's K messages has come in (a condition line of the tool):
+				// then all of them have, in order
+				last := fmt.Sprintf("s:%d:%d", i, st.K-1)
+				if (st.K-1)%3 == 2 { // sent as a binary message: the tool shows it base64-encoded
+					last = base64.StdEncoding.EncodeToString([]byte(last))
+				}
+				fmt.Fprintf(&pb, "<'^%s$',1,60s> c:%d:0\n", regexp.QuoteMeta(last), i)
+				for n := 1; n < st.K; n++ {
 					fmt.Fprintf(&pb, "c:%d:%d\n", i, n)
 				}
 			}
@@ -975,10 +1069,20 @@ func runLoop(c *Case, sh *shared) {
 				if n%2 == 1 {
 					mt = websocket.BinaryMessage
 				}
+				bad := c.BadAt > 0 && n == c.BadAt
+				if bad {
+					mt = 0 // not a websocket message type: WriteMessage refuses it
+				}
 				select {
 				case outCh <- reconws.WsMessage{Type: mt, Data: []byte(fmt.Sprintf("e:%d:%s", n, r.tag))}:
 					r.mu.Lock()
 					r.sentAt = append(r.sentAt, time.Now())
+					if bad {
+						r.garbled = append(r.garbled, n)
+						if k := len(r.attempts); k > 0 { // the connection in use ends here, by the user's doing
+							r.attempts[k-1].end = time.Now()
+						}
+					}
 					r.mu.Unlock()
 				case <-r.finished:
 					return
@@ -1092,8 +1196,12 @@ WAIT:
 		o := Obs{GapSS: int64(a.start.Sub(prevStart)), GapES: int64(a.start.Sub(prevEnd)), Acc: a.acc, Ws: a.ws, Est: a.est, K: a.k}
 		o.In = append([]int{}, a.inSeq...)
 		o.Ack = append([]int{}, a.ackSeq...)
+		if r.busyStop != nil && a.idx == r.busyIdx {
+			o.Later = append([]int{}, r.busyLater...)
+		}
 		if a.est && r.step(a.idx).W == "acceptstay" && !stayEchoGiven {
 			o.In = append([]int{}, r.echoSeq...) // the echoes of the long-lived connection
+			o.K = len(r.sentAt)
 			o.Garbled = append([]int{}, r.garbled...)
 			stayEchoGiven = true
 		}
@@ -1108,6 +1216,7 @@ WAIT:
 		tr.InSeq = append(tr.InSeq, append([]int{}, a.inSeq...))
 		tr.AckSeq = append(tr.AckSeq, append([]int{}, a.ackSeq...))
 		tr.Lagged = append(tr.Lagged, !o.Timed)
+		tr.Malformed = append(tr.Malformed, a.malformed)
 		prevStart = a.start
 		prevEnd = a.end
 		if a.end.IsZero() {
